@@ -206,6 +206,10 @@ class Ledger(object):
                 d.order.append(("RET", rq))
                 if stack and stack[-1] is rq:
                     stack.pop()
+            elif k == "AC":
+                rq = self.reqs.get(e[3])
+                if rq is not None:
+                    rq.attrs_changed = e[4]
             elif k == "J":
                 d.jit.append(e[4])
                 d.order.append(("J", e[4]))
